@@ -55,6 +55,17 @@ def norm(t):
         return (h, norm(t[1]), norm(t[2]))
     if h == "call":
         name, args, fields = t[1], tuple(norm(a) for a in t[2]), _nsel(t[3])
+        # `for (i, x) in xs.iter().enumerate()` is `for i in 0..xs.len()` with x = xs[i]
+        if name == "next" and len(args) == 1 and len(fields) >= 2 and fields[0] == "0" and fields[1] in ("0", "1") \
+                and isinstance(args[0], tuple) and args[0][:2] == ("call", "enumerate") and len(args[0]) == 3 \
+                and isinstance(args[0][2][0], tuple) and args[0][2][0][:2] in (("call", "iter"), ("call", "iter_mut")) and len(args[0][2][0]) == 3:
+            xs = args[0][2][0][2][0]
+            var = ("iter", 0, ("call", "len", (xs,)))
+            out = var if fields[1] == "0" else ("call", "index", (xs, var))
+            rest = fields[2:]
+            if not rest:
+                return out
+            return ("proj", out, rest) if fields[1] == "0" else ("call", "index", (xs, var), rest)
         if fields:
             return ("call", name, args, fields)
         if name == "one" and not args:
